@@ -116,8 +116,59 @@ def enumerate_sites(body):
             elif nm in PANICKY_STD:
                 out.append(Site(body, "index", t, nm.split("::")[-1], t.args[0] if t.args else None))
         elif t.k == "assert":
+            if str(t.j.get("msg_kind", "")).startswith("BoundsCheck"):
+                # `s[i]` on a slice / array is a built-in place projection with a BoundsCheck assert in front of it --
+                # the same bounds check as Index::index on a Vec, and reviewed under the same key
+                bc = _bounds_check_site(body, t)
+                if bc is not None:
+                    out.append(bc)
+                    continue
             out.append(Site(body, "arith", t, t.j["msg_kind"] + ":" + (t.j["msg"].split("(")[1].split(",")[0] if "(" in t.j["msg"] else "")))
     return out
+
+
+class _PlaceOperand:
+    def __init__(self, local, proj, ty):
+        from mir import Place
+
+        self.place = Place({"l": local, "p": proj, "ty": ty})
+        self.c = None
+        self.k = "copy"
+
+    def is_const(self):
+        return False
+
+
+def _bounds_check_site(body, t):
+    m = re.search(r"index: (?:copy|move) _(\d+)", t.j.get("msg", ""))
+    if not m:
+        return None
+    il = int(m.group(1))
+    # the indexed place: `base[_il]` in the block the assert continues to (or anywhere in the body)
+    cands = [body.blocks[t.target]] if t.target is not None else []
+    for blk in cands + [b_ for b_ in body.normal_blocks() if b_ not in cands]:
+        places = []
+        for st in blk.stmts:
+            if st.k != "assign":
+                continue
+            places.append(st.lhs)
+            if st.rv.place is not None:
+                places.append(st.rv.place)
+            for o in st.rv.ops:
+                if o.place is not None:
+                    places.append(o.place)
+        if blk.term.k == "call":
+            for a in blk.term.args:
+                if a.place is not None:
+                    places.append(a.place)
+        for pl in places:
+            for k, e in enumerate(pl.proj):
+                if isinstance(e, dict) and e.get("idx") == il:
+                    base = _PlaceOperand(pl.local, pl.proj[:k], "[_]")
+                    site = Site(body, "index", t, "index:Vec", base)
+                    site.index_operand = _PlaceOperand(il, [], "usize")
+                    return site
+    return None
 
 
 def container_kind(ty):
@@ -230,6 +281,8 @@ def origin_of(fl, site):
     d = norm(fl.describe(site.operand, depth=12))
     if site.kind == "index" and len(site.node.args) > 1:
         d = ("index", d, norm(fl.describe(site.node.args[1], depth=8)))
+    elif site.kind == "index" and getattr(site, "index_operand", None) is not None:
+        d = ("index", d, norm(fl.describe(site.index_operand, depth=8)))
     site.xorigin = norm(expand_names(fl, d))
     return d
 
